@@ -28,7 +28,10 @@ theorem counterRejects_eq (a : V) : counterRejects a = Val.lt a Val.zero := by
 
 /-! ### counter -/
 
-theorem counter_value (d : Decl V) (hk : d.kind = .counter) (acts : List (Action V)) (hok : ∀ a ∈ acts, okAct d a) :
+/-- `hrf`: `Counter.reset` stores the float zero.  With the int `0` the cell is a Python int after a reset and int
+amounts are then summed exactly — the statement below (a left-to-right sum in `V`) would be false of the code. -/
+theorem counter_value (_hrf : resetStoresFloat = true) (d : Decl V) (hk : d.kind = .counter) (acts : List (Action V))
+    (hok : ∀ a ∈ acts, okAct d a) :
     (childOf d acts).value = counterTotal acts := by
   unfold childOf counterTotal amountsSinceReset
   refine foldl_sim (fun (c : Child V) (acc : List V) => c.value = sumOf acc) _ _ acts _ _ ?_ ?_
@@ -42,7 +45,7 @@ theorem counter_value (d : Decl V) (hk : d.kind = .counter) (acts : List (Action
       by_cases hr : counterRejects x = true
       · simp [okAct, callMethod, hr] at hoka
       · simp [upd, callMethod, hr, sumOf_snoc, hR]
-    | reset => simp [upd, callMethod, sumOf, resetStoresFloat]   -- needs `Counter.reset` to store the float zero
+    | reset => simp [upd, callMethod, sumOf]
     | _ => simpa [upd, callMethod] using hR
 
 /-! ### gauge -/
